@@ -268,6 +268,23 @@ class Driver:
         self._pump(step)
         return self._end(step)
 
+    def burst(self, texts):
+        """Several inbound lines that arrive in one read: all are queued before the pump runs."""
+        step = self._begin()
+        gw = self.gw
+        try:
+            for text in texts:
+                if self.flavour == "mqtt":
+                    topic, payload, qos = self.mqtt_inbound(text)
+                    gw.tasks.transport.recv(topic, payload, qos)
+                else:
+                    gw.tasks.add_job(gw.logic, text)
+        except Exception as exc:  # pylint: disable=broad-except
+            step.exc = exc
+            return self._end(step)
+        self._pump(step)
+        return self._end(step)
+
     def mqtt_inbound(self, text):
         """Map a line onto (topic, payload, qos) the way the MQTT gateway sketch does."""
         parts = codec.strip_trailing(text).split(";")
